@@ -15,49 +15,49 @@ import (
 // Verification hooks (build tag "verif" only) for the snapshot codec and the
 // file-system directory. Add-only: nothing here is reachable without the tag.
 
-// VerifSeg is the part of a segmentSnapshot that the snapshot file records.
-type VerifSeg struct {
+// VerifCodecSeg is the part of a segmentSnapshot that the snapshot file records.
+type VerifCodecSeg struct {
 	ID      uint64
 	Type    string
 	Version uint32
 	Deleted *roaring.Bitmap // nil = no deletions
 }
 
-// verifStubSegment answers Type/Version only; every other method is inert.
-type verifStubSegment struct {
+// verifCodecStubSegment answers Type/Version only; every other method is inert.
+type verifCodecStubSegment struct {
 	typ string
 	ver uint32
 }
 
-func (s *verifStubSegment) Dictionary(string) (segment.Dictionary, error) { return nil, nil }
-func (s *verifStubSegment) VisitStoredFields(uint64, segment.StoredFieldVisitor) error {
+func (s *verifCodecStubSegment) Dictionary(string) (segment.Dictionary, error) { return nil, nil }
+func (s *verifCodecStubSegment) VisitStoredFields(uint64, segment.StoredFieldVisitor) error {
 	return nil
 }
-func (s *verifStubSegment) Count() uint64 { return 0 }
-func (s *verifStubSegment) DocsMatchingTerms([]segment.Term) (*roaring.Bitmap, error) {
+func (s *verifCodecStubSegment) Count() uint64 { return 0 }
+func (s *verifCodecStubSegment) DocsMatchingTerms([]segment.Term) (*roaring.Bitmap, error) {
 	return roaring.NewBitmap(), nil
 }
-func (s *verifStubSegment) Fields() []string { return nil }
-func (s *verifStubSegment) CollectionStats(string) (segment.CollectionStats, error) {
+func (s *verifCodecStubSegment) Fields() []string { return nil }
+func (s *verifCodecStubSegment) CollectionStats(string) (segment.CollectionStats, error) {
 	return nil, nil
 }
-func (s *verifStubSegment) Size() int { return 0 }
-func (s *verifStubSegment) DocumentValueReader([]string) (segment.DocumentValueReader, error) {
+func (s *verifCodecStubSegment) Size() int { return 0 }
+func (s *verifCodecStubSegment) DocumentValueReader([]string) (segment.DocumentValueReader, error) {
 	return nil, nil
 }
-func (s *verifStubSegment) WriteTo(io.Writer, chan struct{}) (int64, error) { return 0, nil }
-func (s *verifStubSegment) Type() string                                   { return s.typ }
-func (s *verifStubSegment) Version() uint32                                { return s.ver }
+func (s *verifCodecStubSegment) WriteTo(io.Writer, chan struct{}) (int64, error) { return 0, nil }
+func (s *verifCodecStubSegment) Type() string                                    { return s.typ }
+func (s *verifCodecStubSegment) Version() uint32                                 { return s.ver }
 
-// VerifNewSnapshot builds a Snapshot value whose WriteTo output depends only
+// VerifCodecNewSnapshot builds a Snapshot value whose WriteTo output depends only
 // on the given segment ids, types, versions and deleted bitmaps.
-func VerifNewSnapshot(epoch uint64, segs []VerifSeg) *Snapshot {
+func VerifCodecNewSnapshot(epoch uint64, segs []VerifCodecSeg) *Snapshot {
 	rv := &Snapshot{epoch: epoch, refs: 1, creator: "verif"}
 	for _, s := range segs {
 		rv.segment = append(rv.segment, &segmentSnapshot{
 			id: s.ID,
 			segment: &segmentWrapper{
-				Segment:    &verifStubSegment{typ: s.Type, ver: s.Version},
+				Segment:    &verifCodecStubSegment{typ: s.Type, ver: s.Version},
 				refCounter: noOpRefCounter{},
 			},
 			deleted:        s.Deleted,
@@ -68,33 +68,33 @@ func VerifNewSnapshot(epoch uint64, segs []VerifSeg) *Snapshot {
 	return rv
 }
 
-// VerifSnapshotSegs reads back what a decoded (or constructed) Snapshot holds.
-func VerifSnapshotSegs(s *Snapshot) []VerifSeg {
-	rv := make([]VerifSeg, 0, len(s.segment))
+// VerifCodecSnapshotSegs reads back what a decoded (or constructed) Snapshot holds.
+func VerifCodecSnapshotSegs(s *Snapshot) []VerifCodecSeg {
+	rv := make([]VerifCodecSeg, 0, len(s.segment))
 	for _, ss := range s.segment {
-		rv = append(rv, VerifSeg{ID: ss.id, Type: ss.segmentType, Version: ss.segmentVersion, Deleted: ss.deleted})
+		rv = append(rv, VerifCodecSeg{ID: ss.id, Type: ss.segmentType, Version: ss.segmentVersion, Deleted: ss.deleted})
 	}
 	return rv
 }
 
-// verifSnapshotDir serves snapshots from the wrapped directory and answers
+// verifCodecSnapshotDir serves snapshots from the wrapped directory and answers
 // every segment load with empty data (the stub plugins ignore it).
-type verifSnapshotDir struct {
+type verifCodecSnapshotDir struct {
 	Directory
 }
 
-func (d verifSnapshotDir) Load(kind string, id uint64) (*segment.Data, io.Closer, error) {
+func (d verifCodecSnapshotDir) Load(kind string, id uint64) (*segment.Data, io.Closer, error) {
 	if kind == ItemKindSegment {
 		return segment.NewDataBytes([]byte{}), nil, nil
 	}
 	return d.Directory.Load(kind, id)
 }
 
-// VerifLoadSnapshot runs the real (*Writer).loadSnapshot on the snapshot item
+// VerifCodecLoadSnapshot runs the real (*Writer).loadSnapshot on the snapshot item
 // `epoch` of dir (decode, CRC comparison, close). Segment plugins for the
 // (type, version) pairs named by the file are registered as stubs first, so
 // that the result reflects the codec and checksum only.
-func VerifLoadSnapshot(dir Directory, epoch uint64, validateCRC bool) ([]VerifSeg, error) {
+func VerifCodecLoadSnapshot(dir Directory, epoch uint64, validateCRC bool) ([]VerifCodecSeg, error) {
 	cfg := defaultConfig()
 	cfg.ValidateSnapshotCRC = validateCRC
 	// learn which plugins the file names (best effort; the real load follows)
@@ -109,7 +109,7 @@ func VerifLoadSnapshot(dir Directory, epoch uint64, validateCRC bool) ([]VerifSe
 						Type:    typ,
 						Version: ver,
 						Load: func(*segment.Data) (segment.Segment, error) {
-							return &verifStubSegment{typ: typ, ver: ver}, nil
+							return &verifCodecStubSegment{typ: typ, ver: ver}, nil
 						},
 					})
 				}
@@ -119,12 +119,12 @@ func VerifLoadSnapshot(dir Directory, epoch uint64, validateCRC bool) ([]VerifSe
 			_ = closer.Close()
 		}
 	}
-	w := &Writer{config: cfg, directory: verifSnapshotDir{dir}}
+	w := &Writer{config: cfg, directory: verifCodecSnapshotDir{dir}}
 	snap, err := w.loadSnapshot(epoch)
 	if err != nil {
 		return nil, err
 	}
-	return VerifSnapshotSegs(snap), nil
+	return VerifCodecSnapshotSegs(snap), nil
 }
 
 // VerifCrcWidth exposes the trailer width.
